@@ -362,7 +362,13 @@ def exec_op(card, op):
             return dict(r="text", s=card.get_toc())
         if name == "save":
             # always the same path: the file of the previous save (of this or another card) is still there
-            p = Path(save_dir()) / "README.md"
+            # one path per thread, reused by every save of that thread (a save over an existing file is part of what is
+            # checked; two threads writing the same file would be interference of the harness, not of the library)
+            import threading
+
+            sub = Path(save_dir()) / f"t{threading.get_ident()}"
+            sub.mkdir(exist_ok=True)
+            p = sub / "README.md"
             card.save(p)
             data = p.read_bytes()
             return dict(r="text", s=data.decode("utf-8"), rendered=card.render())
